@@ -13,6 +13,8 @@ ASSUMPTIONS = TRUSTED_BASE + [
     "LAMMPS failure statement raises iff exit code != 0 and not terminated by us; EngineBase.calculate_order applies the velocity reversal flag (E2, shared with C20)",
     "bounded native: the real TurtleMD engine (in-process loop) run forward and backward with position- and velocity-type order parameters: first frame is the start point, every stored order equals the one recomputed from the "
     "referenced frame with its velocity direction, the path stops at the first frame outside / at the length limit and success is reported only in the former case",
+    "proved: EngineBase.propagate (the set-up shared by the external engines) dumps the given point, reverses velocities exactly when the requested direction differs from the point's, starts the engine's own "
+    "_propagate_from exactly once from that file / frame 0 with the requested direction and returns its result; dump_frame / _reverse_velocities / _propagate_from are recording stubs (engine specific, not verified here)",
     "NOT covered: the CP2K and GROMACS polling loops, the ASE loop, process clean-up of GROMACS/CP2K, retrace-under-time-reversal (engine property)",
 ]
 EXPLANATION = (
@@ -24,6 +26,8 @@ EXPLANATION = (
 def jobs(tier):
     return [
         ("e1", {"name": "EngineBase.add_to_path", "registry": "contracts.tis_moves", "key": "EngineBase.add_to_path", "clause": "stop / success rule", "cost": 2, "parallel": 2}),
+        ("e1", {"name": "EngineBase.propagate", "registry": "contracts.engine_base", "key": "EngineBase.propagate",
+                "clause": "common set-up: dump the start point, reverse velocities iff the direction changes, start the engine from that file / frame 0 / requested direction, exactly once, return its result", "cost": 1, "parallel": 2}),
         ("e1", {"name": "lammps_consume_loop", "registry": "contracts.engines_loops", "key": "LAMMPSEngine._propagate_from#consume", "clause": "frame k uses its own data", "cost": 2, "parallel": 2}),
         ("e1", {"name": "lammps_failure", "registry": "contracts.engines_loops", "key": "LAMMPSEngine._propagate_from#failure", "clause": "failure raises", "cost": 1, "parallel": 1}),
         ("py", {"name": "distancevel_engine_vel_rev", "module": "props.C20", "fn": "run_clause", "clause": "distancevel_engine_vel_rev"}),
@@ -112,7 +116,93 @@ def turtlemd_native(spec, tier, seed):
             "backend": "cpython", "time_s": 0.0, "engine": "native", "witness": bad, "solver_output": None if not bad else str(bad)}], "coverage_extra": {"turtlemd_runs": n}}
 
 
+def base_propagate_native():
+    """The real EngineBase.propagate on a recording subclass for the four (reverse, vel_rev) combinations."""
+    import os
+    import shutil
+    import tempfile
+    from infretis.classes.engines.enginebase import EngineBase
+    from infretis.classes.path import Path
+    from infretis.classes.system import System
+    d = tempfile.mkdtemp(prefix="c12b-", dir=os.environ.get("VERIF_SCRATCH", "/var/tmp"))
+    try:
+        for reverse in (False, True):
+            for vel_rev in (False, True):
+                log = []
+
+                class Rec(EngineBase):
+                    def __init__(self):
+                        super().__init__("rec", 1.0, 1)
+                        self.exe_dir = d
+
+                    def dump_frame(self, system, deffnm="conf"):
+                        log.append(("dump", system, system.vel_rev))
+                        return os.path.join(d, "sub", deffnm + ".xyz")
+
+                    def _reverse_velocities(self, a, b):
+                        log.append(("rev", a, b))
+
+                    def _propagate_from(self, name, path, system, ens_set, msg_file, reverse=False):
+                        log.append(("prop", path, system, ens_set, reverse, system.config, system.vel_rev))
+                        return ("S", "STATUS")
+
+                    def _extract_frame(self, *a):
+                        pass
+
+                    def _read_configuration(self, *a):
+                        pass
+
+                    def modify_velocities(self, *a):
+                        pass
+
+                    def set_mdrun(self, *a):
+                        pass
+                e, s, p, ens = Rec(), System(), Path(), {"ens_name": "000", "interfaces": (0, 1, 2)}
+                s.config, s.vel_rev = ("start.xyz", 3), vel_rev
+                out = e.propagate(p, ens, s, reverse=reverse)
+                kinds = [x[0] for x in log]
+                errs = []
+                if kinds[:1] != ["dump"] or kinds[-1:] != ["prop"] or kinds.count("dump") != 1 or kinds.count("prop") != 1:
+                    errs.append(f"call sequence {kinds}")
+                else:
+                    revs = [x for x in log if x[0] == "rev"]
+                    prop = log[-1]
+                    if log[0][1] is not s or log[0][2] != vel_rev:
+                        errs.append("dumped something else than the given point in its old direction")
+                    if (len(revs) == 1) != (reverse != vel_rev) or len(revs) > 1:
+                        errs.append(f"{len(revs)} velocity reversals for reverse={reverse}, vel_rev={vel_rev}")
+                    start = None
+                    if len(revs) == 1:
+                        src, dst = revs[0][1], revs[0][2]
+                        if os.path.dirname(dst) != os.path.dirname(src) or os.path.basename(dst) != "r_" + os.path.basename(src):
+                            errs.append(f"reversal {src} -> {dst}")
+                        start = dst
+                    if start is not None and prop[5] != (start, 0):
+                        errs.append(f"engine started from {prop[5]} instead of ({start}, 0)")
+                    if start is None and (prop[5][1] != 0 or not prop[5][0].endswith("_conf.xyz")):
+                        errs.append(f"engine started from {prop[5]} instead of the dumped file, frame 0")
+                    if prop[6] != reverse or prop[4] != reverse:
+                        errs.append("engine started with the wrong velocity direction")
+                    if prop[1] is not p or prop[2] is not s or prop[3] is not ens or out != ("S", "STATUS"):
+                        errs.append("engine did not get the given path / point / ensemble, or its result was not returned")
+                if errs:
+                    return {"reverse": reverse, "vel_rev": vel_rev, "errors": errs, "function": "EngineBase.propagate"}
+    finally:
+        shutil.rmtree(d, ignore_errors=True)
+    return None
+
+
+def search(obname, limit=None):
+    if obname.split("/")[0] == "EngineBase.propagate":
+        w = base_propagate_native()
+        return {"witness": w, "native": {"reproduced": True, "detail": w["errors"]}} if w else None
+    return None
+
+
 def replay(obname, w):
+    if obname.split("/")[0] == "EngineBase.propagate":
+        hit = search(obname)
+        return hit["native"] if hit else {"reproduced": False, "detail": "the four (reverse, vel_rev) combinations behave as specified natively"}
     if isinstance(w, dict) and "errors" in w:
         r = turtlemd_native({}, "quick", 0)
         o = r["obligations"][0]
